@@ -608,7 +608,13 @@ class SymbolKindFinder:
 
             for stmt in phase:
                 if isinstance(stmt, lang.Assign):
-                    kim(stmt.expression)
+                    kind = kim(stmt.expression)
+
+                    if stmt.assignee_subscript and isinstance(kind, UserType):
+                        raise TypeError(
+                                "cannot store a value of user type '%s' "
+                                "in an element of '%s'"
+                                % (kind.identifier, stmt.assignee))
 
                 elif isinstance(stmt, lang.AssignFunctionCall):
                     kim.map_generic_call(stmt.function_id,
